@@ -119,7 +119,7 @@ namespace vm {
 // Run one job (one instance of the generated algorithm) over a list of events.
 template <class Alg> void run_job(const Plan &p, const std::vector<EventData> &evs) {
   trees().reset();
-  out() << "JOB " << p.job << " " << p.tag << "\n";
+  out() << "JOB " << p.job << " " << p.tag << "\n"; out().flush();
   Alg alg("query", nullptr);
   try {
     StatusCode sc = alg.initialize();
@@ -128,7 +128,7 @@ template <class Alg> void run_job(const Plan &p, const std::vector<EventData> &e
   trees().schema();
   for (int ei : p.events) {
     store().set(&evs.at(ei));
-    out() << "BEGIN " << ei << "\n";
+    out() << "BEGIN " << ei << "\n"; out().flush();
     try {
       StatusCode sc = alg.execute();
       if (sc.isSuccess()) out() << "END ok\n";
